@@ -160,6 +160,16 @@ func racUF(name string, a ...*big.Int) *big.Int {
 		return z.SetBit(a[0], int(u(1)), uint(u(2)&1))
 	case "uf_tzb":
 		return z.SetUint64(uint64(a[0].TrailingZeroBits()))
+	case "uf_pow":
+		if !a[1].IsInt64() || a[1].Int64() > 1<<16 {
+			return z
+		}
+		return z.Exp(a[0], a[1], nil)
+	case "uf_expmod":
+		if a[2].Sign() == 0 || z.Exp(a[0], a[1], a[2]) == nil {
+			return new(big.Int)
+		}
+		return z
 	case "uf_modinv":
 		if a[1].Sign() == 0 || z.ModInverse(a[0], a[1]) == nil {
 			return new(big.Int)
@@ -540,7 +550,7 @@ func (W *World) racTest(fn *ssa.Function, fc *FuncContract) (string, error) {
 	}
 	// requires
 	pre := newEnv(false)
-	for _, rq := range fc.Requires {
+	for _, rq := range append(append([]*Clause{}, fc.Requires...), fc.Sample...) {
 		s, err := compile(pre, rq.E)
 		if err != nil {
 			continue
